@@ -264,10 +264,10 @@ def cases(tier):
     cs = []
     for name, (dec, nq, nt) in DECODERS.items():
         for n in range(0, tier_pick(tier, nq, nt) + 1):
-            cs.append(Case("arb-%s-n%02d" % (name, n), "arbitrary", h_arbitrary, dict(name=name, n=n), budget=1800,
+            cs.append(Case("arb-%s-n%02d" % (name, n), "arbitrary", h_arbitrary, dict(name=name, n=n), budget=tier_pick(tier, 240, 1800),
                            bounds="%s on every octet string of length %d" % (name, n)))
             if n >= tier_pick(tier, nq - 3, 0):
-                cs.append(Case("arbview-%s-n%02d" % (name, n), "arbitrary", h_arbitrary, dict(name=name, n=n, view=True), budget=1800,
+                cs.append(Case("arbview-%s-n%02d" % (name, n), "arbitrary", h_arbitrary, dict(name=name, n=n, view=True), budget=tier_pick(tier, 240, 1800),
                                bounds="%s on every octet string of length %d handed over as a memoryview" % (name, n)))
     cs.append(Case("twin", "arbitrary", h_twin, {}, expect_violation=True, bounds="reachability twin"))
     for k in range(0, 25):
@@ -315,6 +315,6 @@ def cases(tier):
             (("fault",), (0, 1)), (("uslp-frame", "fixed", 2, 2, 1, 1, 1), (4, 5, 6)), (("uslp-frame", "variable", 0, 2, 1, 0, 2), (4, 5, 6)),
             (("uslp-frame", "variable", 0, 2, 1, 0, 2), (0, 3, 7)), (("uslp-frame", "truncated", 0, 2, 0, 0, 1), (3, 4))]
     for what, pos in mut:
-        cs.append(Case("mutated-%s-p%s" % (wname(what), "_".join(map(str, pos))), "mutated", h_mutated, dict(what=what, positions=pos), budget=1800,
+        cs.append(Case("mutated-%s-p%s" % (wname(what), "_".join(map(str, pos))), "mutated", h_mutated, dict(what=what, positions=pos), budget=tier_pick(tier, 240, 1800),
                        bounds="valid %s with octets %s replaced by arbitrary values" % (what, pos)))
     return cs
